@@ -126,6 +126,13 @@ Aux:
 	}
 	// Next bind any unbound &optional and &key vars to the value of their
 	// default form, evaluated in the scope being built, then the &aux vars.
+	// A parameter is unbound if no argument was bound to it in the new
+	// scope, a variable of the same name in an enclosing scope or a global
+	// variable does not count.
+	bound := func(name string) bool {
+		_, has := ss.Vars[strings.ToLower(name)]
+		return has
+	}
 	mode = reqMode
 	for _, ad := range lam.Doc.Args {
 		switch mode {
@@ -153,7 +160,7 @@ Aux:
 			case AmpAllowOtherKeys:
 				// ignore
 			default:
-				if !ss.Bound(Symbol(ad.Name)) {
+				if !bound(ad.Name) {
 					ss.Let(Symbol(ad.Name), ss.Eval(ad.Default, depth+1))
 				}
 			}
@@ -166,7 +173,7 @@ Aux:
 			case AmpAllowOtherKeys:
 				// ignore
 			default:
-				if !ss.Bound(Symbol(ad.Name)) {
+				if !bound(ad.Name) {
 					ss.Let(Symbol(ad.Name), ss.Eval(ad.Default, depth+1))
 				}
 			}
@@ -174,7 +181,7 @@ Aux:
 			asym := Symbol(ad.Name)
 			if AmpAux == asym {
 				mode = auxMode
-			} else if !ss.Bound(asym) {
+			} else if !bound(ad.Name) {
 				ss.Let(asym, ss.Eval(ad.Default, depth+1))
 			}
 		case auxMode:
